@@ -162,6 +162,7 @@ def project(raw_events, scenario, bound=None):
     invinfo = {}
     inv_label = {}      # invocation ordinal -> label of its payload
     slow_cid = {}       # name of a slowly sent request body -> its call
+    open_calls = []     # (cid, who, api) of the API calls that have not returned yet
     for ev in raw_events:
         if ev.get("ev") == "InvokeCall":
             invinfo[ev["k"]] = {"ctx": ev.get("ctx", ""), "trace": ev.get("trace", ""), "now": ev.get("nowMs", 0),
@@ -238,6 +239,7 @@ def project(raw_events, scenario, bound=None):
             o.update(e="Call", cid=ev["seq"], who="rt", api="next", gen=ev.get("gen", 0))
         elif kind in CALLS:
             o.update(e="Call", cid=ev["seq"], who=who_of(ev.get("who", ev["actor"])), api=CALLS[kind], gen=ev.get("gen", 0))
+            open_calls.append((ev["seq"], o["who"], CALLS[kind]))
             if kind in ("RespCall", "ErrCall"):
                 o["id"] = reqk.get(ev.get("reqid", ""), 0)
                 o["body"] = body_label(ev.get("body"))
@@ -274,6 +276,7 @@ def project(raw_events, scenario, bound=None):
         elif kind in RETS:
             o.update(e="Ret", cid=ev.get("cid", 0), who=who_of(ev.get("who", ev["actor"])), status=ev.get("status", 0),
                      et=ev.get("errType", ""), net=ev.get("net", ""), gen=ev.get("gen", 0))
+            open_calls[:] = [c_ for c_ in open_calls if c_[0] != o["cid"]]
             if kind == "RegisterRet" and ev.get("status") == 200:
                 good = (ev.get("fn") == "test_function" and ev.get("ver") == "$LATEST" and ev.get("handler") == "handler.fn"
                         and bool(ev.get("hasId")))
@@ -355,6 +358,17 @@ def project(raw_events, scenario, bound=None):
         elif kind == "Missing":
             # the driver expected an event of the emulator (e.g. the launch of a process) that did not come in time
             o.update(e="Missing", name=ev.get("what", ""))
+        elif kind == "NoAnswer":
+            # the most recent call of that party and kind that has not returned
+            who = who_of(ev.get("who", ""))
+            cid = 0
+            for c_ in reversed(open_calls):
+                if c_[1] == who and c_[2] == ev.get("api"):
+                    cid = c_[0]
+                    break
+            if not cid:
+                continue
+            o.update(e="NoAnswer", cid=cid, who=who)
         elif kind == "NoOutcome":
             # the driver gave up waiting for an invocation's outcome (bound: timeout + reset allowance + grace + slack):
             # no action of the specification corresponds to it
